@@ -385,8 +385,9 @@ public:
      *
      * \throws std::invalid_argument with human readable messages when integers are out of range,
      * the \b rule is not a global rule, or the vectors have incorrect size.
-     * \throws std::runtime_error if the \b custom_filename if missing, or it cannot be opened,
+     * \throws std::invalid_argument if the \b custom_filename is missing, or it cannot be opened,
      * or the format is incorrect.
+     * \throws std::runtime_error if the custom-tabulated or Gauss-Patterson rule has fewer levels than the \b depth requires.
      */
     void makeGlobalGrid(int dimensions, int outputs, int depth, TypeDepth type, TypeOneDRule rule,
                         std::vector<int> const &anisotropic_weights, double alpha = 0.0, double beta = 0.0,
